@@ -88,6 +88,7 @@ type c05Runner struct {
 	i        int
 	lastEv   string
 	stopped  bool
+	lost     bool // the real object left the model's path (an action the model takes is not executable)
 	steps    int
 	driftCnt int
 }
@@ -98,6 +99,15 @@ func (r *c05Runner) do(action string, exp map[string]any, epi bool) {
 	r.steps++
 	o := &c05Obs{T: "c05", Path: r.p.ID, Src: r.p.Src, I: r.i, A: action, Epi: epi, Pre: stName(v.State()), Drift: []string{}}
 	switch {
+	case strings.HasPrefix(action, "CommitBegin") && v.CommitInFlight():
+		// the model believes no commit is pending, the real supervisor has one: the schedule no longer applies
+		o.A = "Quiesce"
+		o.Drift = append(o.Drift, "commit in flight, cannot begin "+action)
+		r.lost = true
+	case action == "SupBegin" && v.StepInFlight():
+		o.A = "Quiesce"
+		o.Drift = append(o.Drift, "step in flight, cannot begin another")
+		r.lost = true
 	case action == "CommitBeginConn":
 		o.CasOK = v.BeginCommit(hsms.VerifEvTCPUp)
 	case action == "CommitBeginSel":
@@ -200,6 +210,9 @@ func runC05(args []string) int {
 		}
 		r := &c05Runner{v: hsms.NewVerifSupervisor(16, p.NotifyCap), w: w, p: &p}
 		for _, s := range p.Steps {
+			if r.lost {
+				break
+			}
 			r.do(s.A, s.Exp, false)
 		}
 		// epilogue: let everything drain, exactly as the free-running goroutines eventually would
